@@ -6,7 +6,9 @@
 // (except that the trailing WARNING block of a resolver file, by design the
 // content of the LAST run, is gone). TLC checks both on the intended design
 // (MC_Project.cfg, shared with C19) and exports the labelled state graph of
-// the pinned tree (MC_Project_edges_c18*.cfg, all four layout combinations).
+// the pinned tree (MC_Project_edges_c18*.cfg, all four layout combinations
+// + two configurations whose autobind list contains the model output package:
+// there every Generate loads the package holding the previous models_gen.go).
 //
 // Binding (replay): seeded histories of that graph are replayed through the
 // real generator; EVERY Generate step is executed in >= 3 separate processes
